@@ -18,9 +18,10 @@ LEVEL_TEXT = ("Theorems in coq/Props/C11.v about the executable heap model coq/H
               "before and after any continuation of the history (C11_stable), and twice in a row (C11_repeat) — for all accessors "
               "when streamBytes reads are position-independent (repaired tree), and for all accessors except AsBytes/AsLargeBytes "
               "of a streamBytes node on the pinned tree (C11_stable_partial), where the full statement is refuted; readers handed out "
-              "by AsLargeBytes (partial Read, Seek, several alive, interleaved): C11_reader_independent_partial (a cursor keeps its "
-              "source, the source keeps its content, a read yields content[own offset:]) — that no other call moves a reader's "
-              "offset (C11_reader_independent) is stated, not proved, and checked by the harness "
+              "by AsLargeBytes (partial Read, Seek, several alive, interleaved): on the repaired configuration no call other than a "
+              "Read/Seek on the reader itself stores to its cell (C11_reader_independent, C11_reader_untouched, per call "
+              "C11_reader_step_footprint), so its next read yields content[own offset:] (C11_reader_next_read); refuted on the "
+              "pinned configuration (C11_readers_full_refuted_pinned) "
               "(C11_refuted_stream, C11_full_refuted_pinned). Proof: an ownership invariant preserved by every single write of "
               "every operation (so also across panics). The model is tied to /repo by running the extracted model on the "
               "histories (<= 40 calls, several builders sharing structure, misuse included) a Go harness ran against the real "
